@@ -5,8 +5,11 @@
        simulation, primary, hash, m, r, x y z vx vy vz, a P e inc Omega omega pomega f M E l theta T, h k ix iy.
    Python-only conveniences (particle=, date=, variation=, variation2=, pal_h/pal_k/pal_ix/pal_iy aliases,
    jacobi_masses=, the string "uniform", string hashes, primary given by index/name) have no C counterpart and
-   are outside this model.  Value-dependent rejections (ix^2+iy^2>4 = code 12, and codes 1..6 of
-   reb_particle_from_orbit_err) happen after the decision modelled here: see Orbit.v.
+   are outside this model.  The one value test that is interleaved with the presence tests, `a == 0` (code 15, right
+   after a is known and BEFORE the omega/pomega and anomaly-count tests), enters as the value bit a_azero.
+   The remaining value-dependent rejections (ix^2+iy^2>4 = code 12 and h^2+k^2>=1 = code 3 in the Pal branch,
+   codes 15,1..6 of reb_particle_from_orbit_err) happen after the decision modelled here; both front ends test
+   them at the same places (mirrored in tools/c11.py; reb_particle_from_orbit_err is modelled in Orbit.v).
 
    Every numeric argument is in one of three states: not passed, passed with a NaN value, passed with a
    non-NaN value.  C initialises each variable to NaN and tests !isnan(v): a NaN value is "not given".
@@ -28,7 +31,8 @@ Record args := mkArgs {
   a_x : pres; a_y : pres; a_z : pres; a_vx : pres; a_vy : pres; a_vz : pres;
   a_a : pres; a_P : pres; a_e : pres; a_inc : pres; a_Omega : pres; a_omega : pres; a_pomega : pres;
   a_f : pres; a_M : pres; a_E : pres; a_l : pres; a_theta : pres; a_T : pres;
-  a_h : pres; a_k : pres; a_ix : pres; a_iy : pres
+  a_h : pres; a_k : pres; a_ix : pres; a_iy : pres;
+  a_azero : bool           (* value bit: the semi-major axis (passed, or computed from P) compares equal to 0 *)
 }.
 
 (* what a parser sees: one presence bit per argument *)
@@ -37,7 +41,8 @@ Record flags := mkFlags {
   qx : bool; qy : bool; qz : bool; qvx : bool; qvy : bool; qvz : bool;
   qa : bool; qP : bool; qe : bool; qinc : bool; qOmega : bool; qomega : bool; qpomega : bool;
   qf : bool; qM : bool; qE : bool; ql : bool; qtheta : bool; qT : bool;
-  qh : bool; qk : bool; qix : bool; qiy : bool
+  qh : bool; qk : bool; qix : bool; qiy : bool;
+  qazero : bool
 }.
 
 Definition flags_of (has : pres -> bool) (g : args) : flags :=
@@ -45,7 +50,7 @@ Definition flags_of (has : pres -> bool) (g : args) : flags :=
     (has (a_x g)) (has (a_y g)) (has (a_z g)) (has (a_vx g)) (has (a_vy g)) (has (a_vz g))
     (has (a_a g)) (has (a_P g)) (has (a_e g)) (has (a_inc g)) (has (a_Omega g)) (has (a_omega g)) (has (a_pomega g))
     (has (a_f g)) (has (a_M g)) (has (a_E g)) (has (a_l g)) (has (a_theta g)) (has (a_T g))
-    (has (a_h g)) (has (a_k g)) (has (a_ix g)) (has (a_iy g)).
+    (has (a_h g)) (has (a_k g)) (has (a_ix g)) (has (a_iy g)) (a_azero g).
 
 Inductive peri := PeriDefault | PeriOmega | PeriPomega.
 Inductive anom := AnDefault | AnF | AnM | AnE | AnL | AnTheta | AnT.
@@ -80,7 +85,8 @@ Definition decide_c (fl : flags) : decision :=
   let Ncart := count [qx fl; qy fl; qz fl; qvx fl; qvy fl; qvz fl] in
   let Norb := count [qprimary fl; qa fl; qP fl; qe fl; qinc fl; qOmega fl; qomega fl; qpomega fl; qf fl; qM fl; qE fl;
                      ql fl; qtheta fl; qT fl] in
-  let Nnonpal := count [qprimary fl; qe fl; qinc fl; qOmega fl; qomega fl; qpomega fl; qf fl; qM fl; qE fl; qtheta fl; qT fl] in
+  (* since d64f81b `primary` is no longer counted in Nnonpal: a primary can be combined with Pal coordinates *)
+  let Nnonpal := count [qe fl; qinc fl; qOmega fl; qomega fl; qpomega fl; qf fl; qM fl; qE fl; qtheta fl; qT fl] in
   let Npal := count [qh fl; qk fl; qix fl; qiy fl] in
   let Nlong := count [qf fl; qM fl; qE fl; ql fl; qtheta fl; qT fl] in
   if (0 <? Nnonpal) && (0 <? Npal) then Reject 7 else
@@ -90,6 +96,7 @@ Definition decide_c (fl : flags) : decision :=
   if negb (qa fl) && negb (qP fl) then Reject 10 else
   if qa fl && qP fl then Reject 11 else
   let afp := negb (qa fl) in
+  if qazero fl then Reject 15 else                      (* if (a==0.) right after a = cbrt(...) *)
   if 0 <? Npal then Pal afp else
   if qomega fl && qpomega fl then Reject 13 else
   let pe := if negb (qomega fl) && negb (qpomega fl) then PeriDefault
@@ -121,6 +128,7 @@ Definition decide_py (fl : flags) : decision :=
     if negb (qa fl) && negb (qP fl) then Reject 10 else
     if qa fl && qP fl then Reject 11 else
     let afp := negb (qa fl) in
+    if qazero fl then Reject 15 else                    (* if a == 0.: raise ValueError *)
     if notNone pal then Pal afp else
     let numNones := count_none [qomega fl; qpomega fl] in
     if numNones =? 0 then Reject 13 else
@@ -145,7 +153,7 @@ Definition no_nan_values (g : args) : Prop :=
 
 Definition any_pal (fl : flags) : bool := qh fl || qk fl || qix fl || qiy fl.
 Definition any_cart (fl : flags) : bool := qx fl || qy fl || qz fl || qvx fl || qvy fl || qvz fl.
-(* the list Python checks against the Pal variables (primary is NOT in it; in C it is) *)
+(* the list both front ends check against the Pal variables (primary is not in it) *)
 Definition any_nonpal_py (fl : flags) : bool :=
   qe fl || qinc fl || qomega fl || qpomega fl || qOmega fl || qM fl || qf fl || qE fl || qtheta fl || qT fl.
 
